@@ -108,6 +108,17 @@ def objective(draw, n, families):
     raise ValueError(fam)
 
 
+def _all_finite(v):
+    import math
+    if isinstance(v, dict):
+        return all(_all_finite(x) for x in v.values())
+    if isinstance(v, (list, tuple)):
+        return all(_all_finite(x) for x in v)
+    if isinstance(v, float):
+        return math.isfinite(v)
+    return True
+
+
 def families_for(n, exact_only=False, rough=True):
     fams = [f for f in ob.EXACT if (f != "pwl1" or n == 1)]
     if not exact_only and rough:
@@ -131,8 +142,13 @@ def problem_recipe(draw, dims=(1, 2, 3, 4, 5), exact_only=False, families=None, 
         u0 = [0.5] * n
         bound = abs(ob.evaluate(rec["obj"], u0)) + ob.lipschitz(rec["obj"]) * math.sqrt(n) / 2.0
         if 1e-100 < bound < 1e100:
-            rec["obj"] = ob.scaled(rec["obj"], float(10.0 ** draw(st.integers(150, 305))) / bound)
-            rec["huge"] = True
+            big = ob.scaled(rec["obj"], float(10.0 ** draw(st.integers(150, 305))) / bound)
+            # (an objective whose parameters are large but cancel - amplitude 1e10 at frequency 1e-38 - cannot be scaled
+            # that far: every parameter and the values at the centre and the corners must stay finite)
+            probes = [u0, [0.0] * n, [1.0] * n, [0.0, 1.0][:n] + [1.0] * max(0, n - 2)]
+            if _all_finite(big) and all(abs(ob.evaluate(big, u)) < 1e306 for u in probes):
+                rec["obj"] = big
+                rec["huge"] = True
     if offsets and not rec.get("huge") and draw(st.integers(0, 3)) == 0:
         # a level that is large compared with the variation of the objective (either sign)
         rec["obj"] = dict(rec["obj"], offset=draw(st.sampled_from([-1.0, 1.0])) * float(10.0 ** draw(st.integers(2, 7))))
